@@ -117,7 +117,7 @@ def r15_1(ctx, rep):
         for s in panics.fn_sites(fx, fid):
             if s.kind == "call:index" and ("for str" in s.detail or "str>::index" in s.detail or "String" in s.detail and "Range" in s.detail):
                 n += 1
-                eng = sym.Engine(fx, inline_only=set())
+                eng = sym.Engine(fx, inline_only=set(getattr(fx, "new_helpers", ())))
                 try:
                     rows = eng.table(fid)
                     ok, why = str_slice_ok(fx, eng, rows, s)
@@ -238,7 +238,7 @@ def r15_3(ctx, rep, roles):
     if len(strip) != 1:
         raise AnchorLost("strip_key_prefix", "not found")
     strip = strip[0]
-    eng = sym.Engine(fx, no_inline={strip["id"]}, inline_only=set())
+    eng = sym.Engine(fx, no_inline={strip["id"]}, inline_only=set(getattr(fx, "new_helpers", ())))
     rows = eng.table(te["id"], arg_terms={1: ("ptr", ("S", "self"), ()), 2: ("obj", ("S", "ev"))})
     KEY = ("proj", ("obj", ("S", "ev")), F(KCE, "key"))
     n_inv = 0
@@ -432,7 +432,7 @@ def r15_4(ctx, rep):
     # ids from fetch_add(1)
     sub = [f for f in fx.fns.values() if f.get("impl_self") == LST and f.get("output") == LH and len(f.get("inputs", [])) == 3 and f["inputs"][1] == "std::string::String"]
     for f in sub:
-        eng4 = sym.Engine(fx, inline_only=set())
+        eng4 = sym.Engine(fx, inline_only=set(getattr(fx, "new_helpers", ())))
         for row in eng4.table(f["id"]):
             if row.exit != "return" or row.ret is None or row.ret[0] != "agg":
                 continue
@@ -458,7 +458,7 @@ def r15_5(ctx, rep, roles):
     for cs in cg.callers_of(new["id"]):
         n += 1
         caller = fx.fns[cs.caller]
-        eng = sym.Engine(fx, no_inline={new["id"]}, inline_only=set())
+        eng = sym.Engine(fx, no_inline={new["id"]}, inline_only=set(getattr(fx, "new_helpers", ())))
         ok = False
         for row in eng.table(cs.caller):
             for e in row.calls():
